@@ -24,15 +24,21 @@
 (* value with the sentinel by !=) is a negative control: with result       *)
 (* objects that have their own equality protocol (kind "probe") TLC must   *)
 (* find a key computed twice / a call that raises.                         *)
+(* Round 4: FbMode "faithful" - the handler receives the caller's extra    *)
+(* arguments on every dispatch path; "mro-dropkw" (negative control        *)
+(* C05_Gen_Buggy_FallbackDropsKw): the class-hierarchy fallback forgets    *)
+(* the keyword arguments - on PoolSel "fb" (leaves known through a base    *)
+(* class only) TLC must find a call that is not transparent.               *)
 (***************************************************************************)
 EXTENDS C05_Pool, Json
-CONSTANTS PoolSel, ArgSel, MaxLen, KeyMode, StoreMode, HitMode, Random
+CONSTANTS PoolSel, ArgSel, MaxLen, KeyMode, StoreMode, HitMode, FbMode, Random
 VARIABLES hist, sts
 
 Pool == CASE PoolSel = "core"   -> PoolCore
           [] PoolSel = "full"   -> PoolCore \o PoolMore
           [] PoolSel = "consts" -> PoolConsts
           [] PoolSel = "mini"   -> PoolMini
+          [] PoolSel = "fb"     -> PoolFb       \* round 4: class-hierarchy fallback dispatch
 ArgTab == CASE ArgSel = "core" -> ArgCore
             [] ArgSel = "full" -> ArgCore \o ArgMore
             [] ArgSel = "two"  -> << NoArgs, Args(<< IntV(1) >>, << >>) >>
@@ -46,7 +52,7 @@ Init == /\ hist = << >>
 
 Step(st, mk, p, q) ==
     IF ~st.live \/ ~ArgOk(mk, q) THEN [st EXCEPT !.live = FALSE]
-    ELSE LET c  == TopCallH(KeyMode, StoreMode, HitMode, st.tab, mk, Pool[p], ArgTab[q])
+    ELSE LET c  == TopCallH(KeyMode, StoreMode, HitMode, FbMode, st.tab, mk, Pool[p], ArgTab[q])
              rn == RunEvents(st.memo, c.evs)
          IN  [tab |-> c.tab, memo |-> rn.ms, live |-> TRUE,
               v |-> IF st.v # "OK" THEN st.v ELSE rn.v]
